@@ -584,33 +584,26 @@ def run(ctx):
                                  {"op": "xrc", "line_hex": hexs(l), "line": l.decode("latin1"), "impl": ans[0],
                                   "expected": want})
         # ---- (e) the request for the status: what dsh() asks the transport to run --------------------------
-        ucmds = [b"cmd", b"ls -l /tmp", b"true", b"a;b", b"echo $?", b"x" * 3000, b"sh -c 'exit 3'", b"q" + magic + b"1"] + \
+        # oracle BY BEHAVIOUR, not by spelling: the string handed to the transport is given to a real shell; with -S / -k
+        # the last line it prints must be the marker line carrying the command's status, without them the command must
+        # behave as typed (same status, no marker)
+        safe = [(b"true", 0), (b"false", 1), (b"(exit 3)", 3), (b"sh -c 'exit 7'", 7), (b"echo hi; (exit 255)", 255),
+                (b"echo no newline | tr -d '\\n'; (exit 42)", 42)]
+        ucmds = [u for u, _ in safe] + [b"cmd", b"ls -l /tmp", b"a;b", b"x" * 3000, b"q" + magic + b"1"] + \
                 [gen_text(rng, rng.randrange(1, 40), b"abc xyz;$?'\"|&01") for _ in range(10 if ctx.quick() else 300)]
         cops = ["cmd %d %d %s" % (S, k, hexs(u)) for u in ucmds for S, k in ((0, 0), (1, 0), (0, 1), (1, 1))]
         impl = run_batch([exe], [[o] for o in cops], env=env, timeout=300)
         mod = ctx.model("exit", "".join(o + "\n" for o in cops), args=["model", bits])
-        want_tail = b";echo " + magic + b"$?"
         for o, (ans, crash), m in zip(cops, impl, mod):
             cov["evaluations"] += 1
             dist["sent_command"] = dist.get("sent_command", 0) + 1
-            w = o.split(" ")
-            S, k, u = int(w[1]), int(w[2]), (bytes.fromhex(w[3]) if w[3] != "-" else b"")
             if crash is not None or not ans:
                 ctx.offender("crash", "dsh() harness aborts on %s: %s" % (o[:80], (crash or "")[-300:]), {"op": o})
                 continue
-            if ans[0] != m:
+            if not same_sent(o, ans[0], m):
                 ctx.disagreement("exit model vs dsh() (command handed to the transport)", "impl `%s` model `%s`" % (ans[0][:200], m[:200]),
                                  {"op": o})
-            got = bytes.fromhex(ans[0]) if ans[0] != "-" else b""
-            if (S or k) and not (got.startswith(u) and got.endswith(want_tail)):
-                ctx.offender("%s:marker-not-requested" % (("S" if S else "") + ("k" if k else "")),
-                             "with -%s dsh() asks the transport to run %r for the command %r: the remote shell is not asked "
-                             "to report the command's status (`%s`), so an in-band transport can never report a failure"
-                             % (("S" if S else "") + ("k" if k else ""), got[-80:], u[:60], want_tail.decode()),
-                             {"op": o, "impl": ans[0][-200:]})
-            if not (S or k) and got != u:
-                ctx.offender("plain:command-changed", "without -S / -k dsh() asks the transport to run %r for the command %r"
-                             % (got[-80:], u[:60]), {"op": o, "impl": ans[0][-200:]})
+            judge_sent(ctx, o, ans[0], dict(safe), magic)
         # ---- (c) exec_destroy on real children --------------------------------------------------
         hows = ["e%d" % c for c in sorted(set(CODES))] + ["s%d" % s for s in SIGS] + ["null"]
         if not ctx.quick():
@@ -892,19 +885,13 @@ def replay(ctx, cov, exe, repo, magic, bits, env):
         o = case["op"]
         (ans, crash), = run_batch([exe], [[o]], env=env, timeout=60)
         m = ctx.model("exit", o + "\n", args=["model", bits])[0]
-        w = o.split(" ")
-        S, k, u = int(w[1]), int(w[2]), (bytes.fromhex(w[3]) if w[3] != "-" else b"")
         ctx.log("replay: %s impl `%s` model `%s`" % (o[:80], ans, m))
         if crash is not None or not ans:
             ctx.offender("crash", "dsh() harness aborts on %s" % o[:80], case)
         else:
-            got = bytes.fromhex(ans[0]) if ans[0] != "-" else b""
-            if ans[0] != m:
+            if not same_sent(o, ans[0], m):
                 ctx.disagreement("exit model vs dsh() (command handed to the transport)", "impl `%s` model `%s`" % (ans[0][:200], m[:200]), case)
-            if (S or k) and not (got.startswith(u) and got.endswith(b";echo " + magic + b"$?")):
-                ctx.offender(sig or "marker-not-requested", "the remote shell is not asked to report the command's status", case)
-            if not (S or k) and got != u:
-                ctx.offender("plain:command-changed", "the command was changed", case)
+            judge_sent(ctx, o, ans[0], {bytes.fromhex(o.split(" ")[3]): case.get("status", 0)}, magic)
     elif str(case.get("op", "")).startswith("xd "):
         h = case["op"][3:]
         (ans, crash), = run_batch([exe], [["xd " + h]], env=env, timeout=60)
@@ -962,6 +949,46 @@ def replay(ctx, cov, exe, repo, magic, bits, env):
     cov["traces_validated_against_impl"] = 1
     return ctx.finish(LEVEL, cov, assumptions=["replay of one recorded input"],
                       trusted_base=["see the full check"], checker_cmd="lake build PdshVerif.Props.C08")
+
+
+def same_sent(op, implhex, modelhex):
+    """the command string of the implementation and of the model: the user's command verbatim, what is appended to it
+    compared up to blanks (`;echo X` / `; echo X` are the same request to a shell)"""
+    u = op.split(" ")[3]
+    u = bytes.fromhex(u) if u != "-" else b""
+    a = bytes.fromhex(implhex) if implhex != "-" else b""
+    b = bytes.fromhex(modelhex) if modelhex not in ("-", "bad-op") else b""
+    if not (a.startswith(u) and b.startswith(u)):
+        return a == b
+    return a[len(u):].replace(b" ", b"") == b[len(u):].replace(b" ", b"")
+
+
+def judge_sent(ctx, op, anshex, safe, magic):
+    """`cmd S K HEX`: run the string dsh() handed to the transport in a real shell (only for the fixed harmless commands of
+    `safe`: command -> its exit status) and judge what it does"""
+    w = op.split(" ")
+    S, k, u = int(w[1]), int(w[2]), (bytes.fromhex(w[3]) if w[3] != "-" else b"")
+    if u not in safe:
+        return
+    got = bytes.fromhex(anshex) if anshex != "-" else b""
+    code = safe[u]
+    try:
+        p = subprocess.run(["/bin/sh", "-c", got.decode("latin1")], stdin=subprocess.DEVNULL, stdout=subprocess.PIPE,
+                           stderr=subprocess.PIPE, timeout=30, cwd="/", env={"PATH": "/usr/bin:/bin"})
+    except subprocess.TimeoutExpired:
+        return
+    lines = p.stdout.split(b"\n")
+    lastline = lines[-2] if len(lines) >= 2 and lines[-1] == b"" else lines[-1]
+    fl = ("S" if S else "") + ("k" if k else "")
+    case = {"op": op, "impl": anshex[-200:], "status": code, "shell_stdout": p.stdout[-200:].decode("latin1")}
+    if fl and not lastline.endswith(magic + b"%d" % code):
+        ctx.offender("%s:marker-not-requested" % fl,
+                     "with -%s dsh() asks the transport to run %r for the command %r; a shell running that prints %r as its last "
+                     "line, not the status marker `%s%d`: an in-band transport can never report the command's status"
+                     % (fl, got[-80:], u, lastline[-60:], magic.decode(), code), case)
+    if not fl and (p.returncode != code or magic in p.stdout):
+        ctx.offender("plain:command-changed", "without -S / -k dsh() asks the transport to run %r for the command %r: a shell running "
+                     "that ends with %d (the command alone: %d)" % (got[-80:], u, p.returncode, code), case)
 
 
 def judge_canceled(ctx, op, ans, crash, m):
